@@ -36,7 +36,7 @@ fn zfd_for_extra(extra: Vec<u8>, usz: u32, csz: u32, off: u32, method: u16) -> Z
 macro_rules! c08_parse_zip64 {
     ($name:ident, $u:expr, $c:expr, $o:expr) => {
         #[kani::proof]
-        #[kani::unwind(12)]
+        #[kani::unwind(5)]
         fn $name() {
             const U: bool = $u;
             const C: bool = $c;
@@ -125,9 +125,9 @@ c08_parse_zip64!(c08_parse_zip64_011, false, true, true);
 c08_parse_zip64!(c08_parse_zip64_111, true, true, true);
 
 macro_rules! c05_parse_extra_any {
-    ($name:ident, $n:expr) => {
+    ($name:ident, $n:expr, $unwind:expr) => {
         #[kani::proof]
-        #[kani::unwind(12)]
+        #[kani::unwind($unwind)]
         fn $name() {
             const N: usize = $n;
             let x: [u8; N] = kani::any();
@@ -147,23 +147,23 @@ macro_rules! c05_parse_extra_any {
 /// C05 extra-field parser over EVERY byte string of length 4 with arbitrary size/offset
 /// sentinels: terminates without panic/overflow.
 // @h prop=C05 tier=quick t=600 mem=8 name=c05_parse_extra_any_4
-c05_parse_extra_any!(c05_parse_extra_any_4, 4);
+c05_parse_extra_any!(c05_parse_extra_any_4, 4, 3);
 /// C05 extra-field parser over every byte string of length 11 (an AES record fits exactly).
 // @h prop=C05,C16 tier=quick t=900 mem=10 name=c05_parse_extra_any_11
-c05_parse_extra_any!(c05_parse_extra_any_11, 11);
+c05_parse_extra_any!(c05_parse_extra_any_11, 11, 4);
 /// C05 extra-field parser over every byte string of length 7.
 // @h prop=C05 tier=thorough t=900 mem=10 name=c05_parse_extra_any_7
-c05_parse_extra_any!(c05_parse_extra_any_7, 7);
+c05_parse_extra_any!(c05_parse_extra_any_7, 7, 3);
 /// C05 extra-field parser over every byte string of length 13.
 // @h prop=C05 tier=thorough t=1800 mem=16 name=c05_parse_extra_any_13
-c05_parse_extra_any!(c05_parse_extra_any_13, 13);
+c05_parse_extra_any!(c05_parse_extra_any_13, 13, 5);
 
 /// C16(a) AES extra field (0x9901): every 7-byte body maps to the documented
 /// (strength, AE-version) pair and inner method, or to the documented error; a body length other
 /// than 7 is refused.
 // @h prop=C16 tier=quick t=600 mem=8
 #[kani::proof]
-#[kani::unwind(12)]
+#[kani::unwind(4)]
 fn c16_parse_aes_extra() {
     let len: u16 = kani::any();
     let vv: u16 = kani::any();
@@ -217,4 +217,501 @@ fn c16_parse_aes_extra() {
     }
     core::mem::forget(r);
     core::mem::forget(f);
+}
+
+// =============================================================================================
+// Seekable reader on archives produced by the independent builder (ref_build)
+// =============================================================================================
+
+/// reference for unix_mode(): APPNOTE external attributes by host system
+fn ref_unix_mode(made_by: u16, eattr: u32) -> Option<u32> {
+    if eattr == 0 {
+        return None;
+    }
+    match made_by >> 8 {
+        3 => Some(eattr >> 16),
+        0 => {
+            let mut m = if eattr & 0x10 != 0 { 0o040000 | 0o775 } else { 0o100000 | 0o664 };
+            if eattr & 1 != 0 {
+                m &= 0o555;
+            }
+            Some(m)
+        }
+        _ => None,
+    }
+}
+
+/// expected decoding of a 1-byte name
+fn ref_name1(b: u8, utf8: bool) -> char {
+    if b < 0x80 {
+        b as char
+    } else if utf8 {
+        '\u{FFFD}'
+    } else {
+        char::from_u32(REF_CP437[b as usize]).unwrap()
+    }
+}
+
+macro_rules! c03_open_single {
+    ($name:ident, MODE=$mode:expr, J=$j:expr, LX=$lx:expr, P=$p:expr, CX=$cx:expr, FC=$fc:expr, AC=$ac:expr, G=$g:expr, unwind=$unwind:expr) => {
+        #[kani::proof]
+        #[kani::unwind($unwind)]
+        #[kani::stub(crc32fast::Hasher::internal_new_specialized, crate::verif_kit::stub_crc_specialized)]
+        #[kani::stub(std::hash::RandomState::new, crate::verif_kit::stub_random_state)]
+        #[kani::stub(std::collections::HashMap::insert, crate::verif_kit::stub_hashmap_insert)]
+        fn $name() {
+            const META: bool = $mode == 0;
+            const READ: bool = $mode == 1;
+            const J: usize = $j;
+            const LX: usize = $lx;
+            const P: usize = $p;
+            const CX: usize = $cx;
+            const FC: usize = $fc;
+            const AC: usize = $ac;
+            const G: usize = $g;
+            const LOCAL_AT: usize = J;
+            const DATA_AT: usize = LOCAL_AT + 30 + 1 + LX;
+            const CD_AT: usize = DATA_AT + P;
+            const EOCD_AT: usize = CD_AT + 46 + 1 + CX + FC;
+            const LEN: usize = EOCD_AT + 22 + AC + G;
+            const N: usize = 128;
+            assert!(LEN <= N);
+            let mut b = [0u8; N];
+            let junk: [u8; J] = kani::any();
+            let name: [u8; 1] = kani::any();
+            let lextra: [u8; LX] = kani::any();
+            let payload: [u8; P] = kani::any();
+            let cextra: [u8; CX] = kani::any();
+            let fcomment: [u8; FC] = kani::any();
+            let acomment: [u8; AC] = kani::any();
+            let garbage: [u8; G] = kani::any();
+            let mut v = if META {
+                EntryVals::any()
+            } else {
+                EntryVals { made_by: 0x031e, needed: 20, flags: kani::any(), method: 0, time: 0x6000, date: 0x5021, crc: 0, csize: 0, usize_: 0, disk: 0, iattr: 0, eattr: 0o100644 << 16, offset: 0 }
+            };
+            if !META {
+                kani::assume(v.flags & !((1 << 3) | (1 << 11)) == 0);
+            }
+            // a well-formed single-disk stored entry without encryption
+            v.flags &= !(1 | (1 << 6) | (1 << 13));
+            v.method = 0;
+            v.csize = P as u32;
+            v.usize_ = P as u32;
+            v.crc = ref_crc32(&payload, P);
+            v.offset = 0; // relative to the start of the archive proper (after the junk)
+            let dd = v.flags & (1 << 3) != 0;
+            // central extra: an unknown record (never ZIP64/AES) when present
+            let mut cx = cextra;
+            if CX >= 4 {
+                let id = le16(&cx, 0);
+                kani::assume(id != 0x0001 && id != 0x9901);
+                put16(&mut cx, 2, (CX - 4) as u16);
+            }
+            let mut lx = lextra;
+            if LX >= 4 {
+                put16(&mut lx, 2, (LX - 4) as u16);
+            }
+            let mut i = 0;
+            while i < J {
+                b[i] = junk[i];
+                i += 1;
+            }
+            // local header: under bit 3 the sizes/crc are zero there (central is authoritative)
+            let p = put_local(&mut b, LOCAL_AT, &v, if dd { 0 } else { v.crc }, if dd { 0 } else { v.csize }, if dd { 0 } else { v.usize_ }, &name, &lx);
+            assert_eq!(p, DATA_AT);
+            let mut i = 0;
+            while i < P {
+                b[DATA_AT + i] = payload[i];
+                i += 1;
+            }
+            let p = put_central(&mut b, CD_AT, &v, &name, &cx, &fcomment);
+            assert_eq!(p, EOCD_AT);
+            let p = put_eocd(&mut b, EOCD_AT, 0, 0, 1, 1, (EOCD_AT - CD_AT) as u32, (CD_AT - J) as u32, &acomment);
+            let mut i = 0;
+            while i < G {
+                b[p + i] = garbage[i];
+                i += 1;
+            }
+            // the comment and the garbage must not contain an end-record signature themselves
+            // (format-inherent ambiguity): with <= 3 bytes they cannot.
+            let src = Src::<N>::new(b, LEN);
+            let mut ar = match ZipArchive::new(src) {
+                Ok(a) => a,
+                Err(e) => {
+                    core::mem::forget(e);
+                    assert!(false, "well-formed archive rejected");
+                    return;
+                }
+            };
+            assert_eq!(ar.len(), 1);
+            assert_eq!(ar.offset(), J as u64);
+            {
+                let c = ar.comment();
+                assert_eq!(c.len(), AC);
+                let mut i = 0;
+                while i < AC {
+                    assert_eq!(c[i], acomment[i]);
+                    i += 1;
+                }
+            }
+            if META {
+            match ar.by_index(1) {
+                Err(ZipError::FileNotFound) => {}
+                Err(e) => {
+                    core::mem::forget(e);
+                    assert!(false, "out-of-range index: wrong error");
+                }
+                Ok(f) => {
+                    core::mem::forget(f);
+                    assert!(false, "out-of-range index succeeded");
+                }
+            }
+            }
+            let utf8 = v.flags & (1 << 11) != 0;
+            let mut f = match ar.by_index(0) {
+                Ok(f) => f,
+                Err(e) => {
+                    core::mem::forget(e);
+                    assert!(false, "entry of a well-formed archive could not be opened");
+                    return;
+                }
+            };
+            {
+                let mut it = f.name().chars();
+                assert_eq!(it.next(), Some(ref_name1(name[0], utf8)));
+                assert!(it.next().is_none());
+            }
+            assert_eq!(f.name_raw().len(), 1);
+            assert_eq!(f.name_raw()[0], name[0]);
+            assert!(f.compression() == CompressionMethod::Stored);
+            assert_eq!(f.crc32(), v.crc);
+            assert_eq!(f.size(), P as u64);
+            assert_eq!(f.compressed_size(), P as u64);
+            assert_eq!(f.last_modified().datepart(), v.date);
+            assert_eq!(f.last_modified().timepart(), v.time);
+            assert_eq!(f.unix_mode(), ref_unix_mode(v.made_by, v.eattr));
+            assert_eq!(f.version_made_by(), ((v.made_by as u8) / 10, (v.made_by as u8) % 10));
+            assert_eq!(f.header_start(), LOCAL_AT as u64);
+            assert_eq!(f.central_header_start(), CD_AT as u64);
+            assert_eq!(f.data_start(), DATA_AT as u64);
+            {
+                let x = f.extra_data();
+                assert_eq!(x.len(), CX);
+                let mut i = 0;
+                while i < CX {
+                    assert_eq!(x[i], cx[i]);
+                    i += 1;
+                }
+            }
+            // content: exactly the payload, then EOF forever
+            if READ {
+            let mut got = [0u8; 4];
+            let mut n = 0;
+            let mut call = 0;
+            while call < P + 2 {
+                let mut one = [0u8; 1];
+                match f.read(&mut one) {
+                    Ok(0) => {
+                        assert_eq!(n, P);
+                    }
+                    Ok(_) => {
+                        assert!(n < P);
+                        got[n] = one[0];
+                        n += 1;
+                    }
+                    Err(e) => {
+                        core::mem::forget(e);
+                        assert!(false, "read of a well-formed entry failed");
+                    }
+                }
+                call += 1;
+            }
+            assert_eq!(n, P);
+            let mut i = 0;
+            while i < P {
+                assert_eq!(got[i], payload[i]);
+                i += 1;
+            }
+            }
+            kani::cover!(dd);
+            kani::cover!(!dd && utf8 && name[0] >= 0x80);
+            kani::cover!(!META || (v.made_by >> 8 == 0 && v.eattr & 0x11 == 0x11));
+            core::mem::forget(f);
+            core::mem::forget(ar);
+        }
+    };
+}
+/// C03/C19 seekable reader, metadata: single-entry archive from the independent builder with
+/// 2 bytes of prepended junk, 1-byte name (UTF-8 flag symbolic), 2-byte stored payload, 1-byte
+/// archive comment; ALL header values symbolic (made-by system/version, flags incl. bit 3 with
+/// zeroed local sizes, DOS time/date, attributes, disk/internal attrs). Every accessor equals
+/// the builder's value (offsets shifted by the junk; offset() == junk length), out-of-range
+/// index -> FileNotFound.
+// @h prop=C03,C19,C01 tier=quick t=1500 mem=32 name=c03_open_meta_j2
+c03_open_single!(c03_open_meta_j2, MODE=0, J=2, LX=0, P=2, CX=0, FC=0, AC=1, G=0, unwind=8);
+
+macro_rules! c03_entry_read {
+    ($name:ident, J=$j:expr, LX=$lx:expr, P=$p:expr, unwind=$unwind:expr) => {
+        #[kani::proof]
+        #[kani::unwind($unwind)]
+        #[kani::stub(crc32fast::Hasher::internal_new_specialized, crate::verif_kit::stub_crc_specialized)]
+        fn $name() {
+            const J: usize = $j;
+            const LX: usize = $lx;
+            const P: usize = $p;
+            const DATA_AT: usize = J + 30 + 2 + LX;
+            const LEN: usize = DATA_AT + P + 3;
+            const N: usize = 64;
+            let mut b: [u8; N] = kani::any(); // everything around the entry is arbitrary
+            let name: [u8; 2] = kani::any();
+            let lextra: [u8; LX] = kani::any();
+            let payload: [u8; P] = kani::any();
+            let v = EntryVals::any();
+            // the local header's own lengths (2-byte name, LX extra) differ from the central
+            // record's (empty name, no extra): data start must come from the local header
+            let p = put_local(&mut b, J, &v, kani::any(), kani::any(), kani::any(), &name, &lextra);
+            assert_eq!(p, DATA_AT);
+            let mut i = 0;
+            while i < P {
+                b[DATA_AT + i] = payload[i];
+                i += 1;
+            }
+            let mut src = Src::<N>::new(b, LEN);
+            let declared_crc: u32 = kani::any();
+            let mut data = zfd_for_extra(Vec::new(), kani::any(), P as u32, J as u32, 0);
+            data.crc32 = declared_crc;
+            data.using_data_descriptor = kani::any();
+            let take = match find_content(&data, &mut src) {
+                Ok(t) => t,
+                Err(e) => {
+                    core::mem::forget(e);
+                    assert!(false, "find_content failed on a well-formed local header");
+                    return;
+                }
+            };
+            assert_eq!(data.data_start.load(), DATA_AT as u64);
+            assert_eq!(take.limit(), P as u64);
+            // exactly what by_index does next
+            let cr = match make_crypto_reader(
+                data.compression_method,
+                data.crc32,
+                data.last_modified_time,
+                data.using_data_descriptor,
+                take,
+                None,
+                None,
+                #[cfg(feature = "aes-crypto")]
+                data.compressed_size,
+            ) {
+                Ok(Ok(c)) => c,
+                Ok(Err(e)) => {
+                    core::mem::forget(e);
+                    assert!(false, "plain entry asked for a password");
+                    return;
+                }
+                Err(e) => {
+                    core::mem::forget(e);
+                    assert!(false, "stored entry refused");
+                    return;
+                }
+            };
+            let mut f = ZipFile { data: Cow::Borrowed(&data), crypto_reader: Some(cr), reader: ZipFileReader::NoReader };
+            let mut got = [0u8; 4];
+            let mut n = 0;
+            let mut eof_ok = false;
+            let mut errored = false;
+            let mut call = 0;
+            while call < P + 2 {
+                let mut one = [0u8; 1];
+                match f.read(&mut one) {
+                    Ok(0) => {
+                        assert_eq!(n, P);
+                        assert!(!errored);
+                        eof_ok = true;
+                    }
+                    Ok(_) => {
+                        assert!(n < P && !eof_ok);
+                        got[n] = one[0];
+                        n += 1;
+                    }
+                    Err(e) => {
+                        core::mem::forget(e);
+                        errored = true;
+                        assert_eq!(n, P);
+                    }
+                }
+                call += 1;
+            }
+            assert_eq!(n, P);
+            let mut i = 0;
+            while i < P {
+                assert_eq!(got[i], payload[i]);
+                i += 1;
+            }
+            let real = ref_crc32(&payload, P);
+            // C04 on the real path: success to EOF <=> declared CRC equals the data's CRC
+            assert_eq!(eof_ok, real == declared_crc);
+            assert_eq!(errored, real != declared_crc);
+            kani::cover!(eof_ok);
+            kani::cover!(errored);
+            core::mem::forget(f);
+            core::mem::forget(data);
+        }
+    };
+}
+/// C03/C04/C01 entry data path as by_index drives it (find_content -> make_crypto_reader ->
+/// ZipFile::read -> make_reader -> Crc32Reader): local header at offset 2 whose own name/extra
+/// lengths (2, 0) differ from the central record's; all local header values, the surrounding
+/// bytes, the 2-byte payload and the DECLARED CRC are symbolic. data_start comes from the
+/// local header; reading returns exactly the payload; the read completes with Ok(0) iff the
+/// declared CRC equals the bitwise-reference CRC of the payload, otherwise it errors at EOF.
+// @h prop=C03,C04,C01 tier=quick t=1500 mem=24 name=c03_entry_read_j2_x0
+c03_entry_read!(c03_entry_read_j2_x0, J=2, LX=0, P=2, unwind=8);
+/// C03/C04 entry data path with a 4-byte local extra field the central record does not have.
+// @h prop=C03,C04 tier=thorough t=1800 mem=24 name=c03_entry_read_j0_x4
+c03_entry_read!(c03_entry_read_j0_x4, J=0, LX=4, P=2, unwind=8);
+
+// =============================================================================================
+// Opening entries of a hostile archive: never a panic (C05), documented decisions (C15)
+// =============================================================================================
+fn any_aes_mode() -> Option<(AesMode, AesVendorVersion)> {
+    let k: u8 = kani::any();
+    kani::assume(k < 7);
+    let ver = if k & 1 == 0 { AesVendorVersion::Ae1 } else { AesVendorVersion::Ae2 };
+    match k >> 1 {
+        0 => None,
+        1 => Some((AesMode::Aes128, ver)),
+        2 => Some((AesMode::Aes192, ver)),
+        _ => Some((AesMode::Aes256, ver)),
+    }
+}
+
+fn archive_of<const N: usize>(data: ZipFileData, src: Src<N>) -> ZipArchive<Src<N>> {
+    ZipArchive {
+        reader: src,
+        shared: Arc::new(zip_archive::Shared { files: vec![data], names_map: HashMap::new(), offset: 0, comment: Vec::new() }),
+    }
+}
+
+fn is_password_required(e: &ZipError) -> bool {
+    // message identity without memcmp: length (33) and first byte are unique among the
+    // crate's UnsupportedArchive messages
+    match e {
+        ZipError::UnsupportedArchive(s) => s.len() == ZipError::PASSWORD_REQUIRED.len() && s.as_bytes()[0] == b'P',
+        _ => false,
+    }
+}
+
+/// a one-entry archive whose central metadata and local header region are hostile
+fn hostile_archive() -> (ZipArchive<Src<48>>, bool, bool, u16) {
+    const N: usize = 48;
+    let mut b: [u8; N] = kani::any();
+    put32(&mut b, 0, SIG_LOCAL);
+    let nl: u16 = kani::any();
+    let xl: u16 = kani::any();
+    kani::assume(nl <= 2 && xl <= 2);
+    put16(&mut b, 26, nl);
+    put16(&mut b, 28, xl);
+    let src = Src::<N>::new(b, N);
+    let mut data = zfd_for_extra(Vec::new(), kani::any(), kani::any(), 0, kani::any());
+    data.encrypted = kani::any();
+    data.using_data_descriptor = kani::any();
+    data.aes_mode = any_aes_mode();
+    data.crc32 = kani::any();
+    kani::assume(data.compressed_size <= 14);
+    let encrypted = data.encrypted;
+    let has_aes = data.aes_mode.is_some();
+    #[allow(deprecated)]
+    let method = data.compression_method.to_u16();
+    (archive_of(data, src), encrypted, has_aes, method)
+}
+
+/// C05/C15 by_index on a hostile entry: every combination of (encrypted flag, AES extra present
+/// or not and which, method number incl. 99/unknown, data-descriptor flag, sizes <= 14, CRC) over
+/// an arbitrary 48-byte local header region: by_index and the first read return a value or an
+/// error - no panic, no unwrap failure, no overflow; an encrypted entry without a password is
+/// refused with exactly the password-required error.
+// @h prop=C05,C15 tier=quick t=1500 mem=24
+#[kani::proof]
+#[kani::unwind(8)]
+#[kani::stub(crc32fast::Hasher::internal_new_specialized, crate::verif_kit::stub_crc_specialized)]
+#[kani::stub(std::hash::RandomState::new, crate::verif_kit::stub_random_state)]
+fn c05_open_entry_nopw() {
+    let (mut ar, encrypted, _has_aes, method) = hostile_archive();
+    match ar.by_index(0) {
+        Ok(mut f) => {
+            assert!(!encrypted, "encrypted entry opened without a password");
+            let mut one = [0u8; 1];
+            let r = f.read(&mut one);
+            kani::cover!(r.is_ok());
+            core::mem::forget(r);
+            core::mem::forget(f);
+        }
+        Err(e) => {
+            if encrypted {
+                // C15(f): exactly the password-required error
+                assert!(is_password_required(&e));
+            }
+            kani::cover!(encrypted);
+            kani::cover!(!encrypted && method != 0);
+            core::mem::forget(e);
+        }
+    }
+    core::mem::forget(ar);
+}
+
+/// C05 by_index_raw on the same hostile entries: always succeeds for an in-range header and
+/// never panics on read.
+// @h prop=C05,C14 tier=quick t=1500 mem=24
+#[kani::proof]
+#[kani::unwind(8)]
+#[kani::stub(crc32fast::Hasher::internal_new_specialized, crate::verif_kit::stub_crc_specialized)]
+#[kani::stub(std::hash::RandomState::new, crate::verif_kit::stub_random_state)]
+fn c05_open_entry_raw() {
+    let (mut ar, _encrypted, _has_aes, _method) = hostile_archive();
+    match ar.by_index_raw(0) {
+        Ok(mut f) => {
+            let mut one = [0u8; 1];
+            let r = f.read(&mut one);
+            kani::cover!(r.is_ok());
+            core::mem::forget(r);
+            core::mem::forget(f);
+        }
+        Err(e) => {
+            core::mem::forget(e);
+            assert!(false, "raw access to an in-range local header failed");
+        }
+    }
+    core::mem::forget(ar);
+}
+
+/// C05/C15 by_index_decrypt(password) on the same hostile entries (short encrypted entries,
+/// AES extra without the flag, ...): value, InvalidPassword or error - never a panic.
+// @h prop=C05,C15 tier=quick t=1500 mem=24
+#[kani::proof]
+#[kani::unwind(14)]
+#[kani::stub(crc32fast::Hasher::internal_new_specialized, crate::verif_kit::stub_crc_specialized)]
+#[kani::stub(std::hash::RandomState::new, crate::verif_kit::stub_random_state)]
+fn c05_open_entry_pw() {
+    let (mut ar, encrypted, has_aes, _method) = hostile_archive();
+    let pw: [u8; 1] = kani::any();
+    match ar.by_index_decrypt(0, &pw) {
+        Ok(Ok(mut f)) => {
+            let mut one = [0u8; 1];
+            let r = f.read(&mut one);
+            kani::cover!(r.is_ok() && !encrypted);
+            core::mem::forget(r);
+            core::mem::forget(f);
+        }
+        Ok(Err(_)) => {
+            assert!(encrypted || has_aes);
+            kani::cover!(true);
+        }
+        Err(e) => {
+            kani::cover!(true);
+            core::mem::forget(e);
+        }
+    }
+    core::mem::forget(ar);
 }
